@@ -162,7 +162,7 @@ def run(repo, chk):
     fpr = facts_of(pr)
     reports = [(t_, set(c_), n) for t_, c_, n in fpr.starting("problems.append(") if isinstance(n, ast.Call)]
     fnv = (fpr.bound_to("self.element.name") or ["self.element.name"])[0]
-    dv = ([v for t_ in ("info.get(x.name.split('.')[0], None)", "info.get(x.name.split('.')[0])", "info.get(name, None)") for v in fpr.bound_to(t_)] or ["data"])[0]
+    dv = ([v for t_ in ("info.get(x.name.split('.')[0], None)", "info.get(x.name.split('.')[0])", "info.get(name)") for v in fpr.bound_to(t_)] or ["data"])[0]
     for key, need, what in (
             ("wildcard-function", [{f"{fnv} is None"}, {"self.element.name is None"}], "a wildcard in function position"),
             ("untooled-function", [{"info is None"}, {f"getattr({fnv}, '__ptera_info__', None) is None"}, {"getattr(self.element.name, '__ptera_info__', None) is None"}],
